@@ -262,6 +262,7 @@ func Send[T any](ch chan<- T) func(T) {
 			return
 		}
 		s.cur.chanOp(false, []*Case{sendCase(ch, v)})
+		After("send(done)", *(*unsafe.Pointer)(unsafe.Pointer(&ch)))
 	}
 }
 
@@ -312,6 +313,7 @@ func Close[T any](ch chan<- T) {
 	}
 	s.closed[p] = true
 	s.event(s.cur, 3, p, false, true)
+	defer After("close(done)", p)
 	close(ch)
 }
 
